@@ -1,4 +1,7 @@
 """Inventory of harness executables: (name, sources, build configuration)."""
 HARNESSES = [
     ("unify", ["unify.cxx"], "plain"),
+    ("rbtree", ["rbtree.cxx"], "plain"),
+    ("specs", ["specs.cxx"], "plain"),
+    ("subst", ["subst.cxx"], "plain"),
 ]
